@@ -157,6 +157,20 @@ func (e *Env) BuildGenesis(a *app.App, gs *GenesisSpec) ([]byte, *Model) {
 	if err != nil {
 		panic(err)
 	}
+	custom, m := e.BuildGenesisModelOnly(gs)
+	for k, v := range custom {
+		state[k] = v
+	}
+	bz, err := json.Marshal(state)
+	if err != nil {
+		panic(err)
+	}
+	return bz, m
+}
+
+// BuildGenesisModelOnly returns the custom-module genesis sections and the corresponding model.
+func (e *Env) BuildGenesisModelOnly(gs *GenesisSpec) (map[string]json.RawMessage, *Model) {
+	state := map[string]json.RawMessage{}
 	m := NewModel()
 	if gs.Aol != nil {
 		g := aoltypes.DefaultGenesis()
@@ -184,7 +198,7 @@ func (e *Env) BuildGenesis(a *app.App, gs *GenesisSpec) ([]byte, *Model) {
 		for ok, ts := range m.Aol {
 			g.Owners[sdk.AccAddress([]byte(ok)).String()] = &aoltypes.Owner{TotalTopics: uint64(len(ts))}
 		}
-		state[aoltypes.ModuleName] = a.AppCodec().MustMarshalJSON(g)
+		state[aoltypes.ModuleName] = e.Cdc.MustMarshalJSON(g)
 	}
 	if len(gs.Did) > 0 {
 		g := &didtypes.GenesisState{Documents: map[string]*didtypes.DIDDocumentWithSeq{}}
@@ -199,7 +213,7 @@ func (e *Env) BuildGenesis(a *app.App, gs *GenesisSpec) ([]byte, *Model) {
 				m.Did[d.Did] = &DidEntry{Doc: cloneDoc(doc), Seq: d.Seq}
 			}
 		}
-		state[didtypes.ModuleName] = a.AppCodec().MustMarshalJSON(g)
+		state[didtypes.ModuleName] = e.Cdc.MustMarshalJSON(g)
 	}
 	if gs.Pnft != nil {
 		g := pnfttypes.DefaultGenesis()
@@ -217,13 +231,9 @@ func (e *Env) BuildGenesis(a *app.App, gs *GenesisSpec) ([]byte, *Model) {
 			}
 			m.Tokens[t["denom"]][t["id"]] = &TokenM{DenomId: t["denom"], Id: t["id"], Name: t["name"], Description: t["desc"], Uri: t["uri"], UriHash: t["uri_hash"], Data: t["data"], Creator: t["creator"], Owner: canonAddr(t["owner"]), CreatedAt: ct}
 		}
-		state[pnfttypes.ModuleName] = a.AppCodec().MustMarshalJSON(g)
+		state[pnfttypes.ModuleName] = e.Cdc.MustMarshalJSON(g)
 	}
-	bz, err := json.Marshal(state)
-	if err != nil {
-		panic(err)
-	}
-	return bz, m
+	return state, m
 }
 
 func mustHex(s string) []byte {
